@@ -3,6 +3,7 @@ package rules
 import (
 	"go/token"
 	"go/types"
+	"net/textproto"
 	"sort"
 	"strings"
 
@@ -261,7 +262,9 @@ func checkRegisterFilter(p *an.Prog, r *an.Run) {
 	if !okName {
 		bad = append(bad, "the registered name is not built as prefix + lower-cased first rune + rest of the method name")
 	}
-	if p.Derives(0, regUpd.Key).CallTo(func(f *types.Func) bool { return f.Name() == "String" && an.RecvNamed(f) != nil && an.RecvNamed(f).Obj().Name() == "Buffer" }) == nil {
+	if p.Derives(0, regUpd.Key).CallTo(func(f *types.Func) bool {
+		return f.Name() == "String" && an.RecvNamed(f) != nil && an.RecvNamed(f).Obj().Name() == "Buffer"
+	}) == nil {
 		bad = append(bad, "the registry key is not the assembled name")
 	}
 	r.Check(len(bad) == 0, "register-filter", name, reg.Pos(), "allow-list applied whenever given; name = prefix + lowerFirst(method)", "%s", strings.Join(bad, "; "))
@@ -843,6 +846,55 @@ func runC17(p *an.Prog, r *an.Run, tier string) {
 			}
 		}
 		r.Check(len(bad) == 0, "full-read", "package jsonrpc2", token.NoPos, "no message is read with a bare Read call", "%s", strings.Join(bad, "; "))
+	}
+
+	// ---- http-once: over HTTP a message is delivered once only if the transport never re-sends it on its own.
+	// net/http replays a request after a connection failure when it is "idempotent": a GET/HEAD/OPTIONS/TRACE, or any
+	// request carrying an Idempotency-Key / X-Idempotency-Key header. The client stub must stay a plain POST.
+	if hc := p.Method("jsonrpc2", "HTTPService", "Call"); hc != nil {
+		r.Analysed(an.FuncName(hc))
+		var bad []string
+		nReq := 0
+		for _, fn := range regionFuncs(p, hc) {
+			for _, c := range an.Calls(fn, false) {
+				f := an.CallObj(c)
+				if f == nil {
+					continue
+				}
+				a := c.Common().Args
+				switch {
+				case an.IsFunc(f, "net/http", "NewRequest") || an.IsFunc(f, "net/http", "NewRequestWithContext"):
+					nReq++
+					mi := 0
+					if f.Name() == "NewRequestWithContext" {
+						mi = 1
+					}
+					if m, ok := an.ConstString(a[mi]); !ok || m != "POST" {
+						bad = append(bad, "the request built at "+p.Pos(c.Pos())+" is not a constant POST: the transport re-sends idempotent methods after a connection failure")
+					}
+				case an.IsMethod(f, "net/http", "Header", "Set") || an.IsMethod(f, "net/http", "Header", "Add"):
+					k, ok := an.ConstString(a[1])
+					if !ok {
+						bad = append(bad, "a request header with a non-constant name is set at "+p.Pos(c.Pos()))
+						continue
+					}
+					if ck := textproto.CanonicalMIMEHeaderKey(k); ck == "Idempotency-Key" || ck == "X-Idempotency-Key" {
+						bad = append(bad, "the request carries the header "+k+" ("+p.Pos(c.Pos())+"): net/http treats it as replayable and silently re-sends it on a fresh connection when a reused connection dies, so the message is executed twice")
+					}
+				}
+			}
+			an.AllInstrs(fn, func(in ssa.Instruction) {
+				if mu, ok := in.(*ssa.MapUpdate); ok {
+					if n, ok := mu.Map.Type().(*types.Named); ok && n.Obj().Name() == "Header" && n.Obj().Pkg() != nil && n.Obj().Pkg().Path() == "net/http" {
+						bad = append(bad, "a request header is written directly into the header map at "+p.Pos(mu.Pos()))
+					}
+				}
+			})
+		}
+		r.Floor("http-requests-built", nReq, 1)
+		r.Check(len(bad) == 0, "http-once", an.FuncName(hc), hc.Pos(), "the HTTP stub sends a plain POST the transport never replays", "%s", strings.Join(dedup(bad), "; "))
+	} else {
+		r.Undec("http-once", "jsonrpc2.HTTPService", token.NoPos, "HTTPService.Call not found")
 	}
 
 	// ---- shipped-codec
